@@ -32,6 +32,10 @@ def gen(r, n):
                     no_capture=True))
     scs.append(dict(u=150, period=1, ta=1, grace=0, leak=0.7, dur=3.5, on_term="ignore", sigs=[], no_capture=True))
     scs.append(dict(u=150, period=1, ta=2, grace=1, leak=0.7, dur=6, on_term="ignore", child=True, sigs=[], direct_spawn=True))
+    # terminated at the deadline and, in addition, a descendant that ignores SIGTERM keeps the test's stdout open
+    # past the leak timeout: the attempt is still reported as timed out (not as a leak / a plain failure)
+    scs.append(dict(u=150, period=1, ta=2, grace=3, leak=0.7, dur=7, on_term="exit", hold=3, sigs=[]))
+    scs.append(dict(u=150, period=1, ta=1, grace=3, leak=0.7, dur=7, on_term=("late_ok", 0.5), hold=3, sigs=[]))
     # terminated at the deadline, then exits with status 0 within the grace period: still a timeout
     scs.append(dict(u=150, period=1, ta=2, grace=2, leak=0.7, dur=6, on_term=("late_ok", 0.5), sigs=[]))
     scs.append(dict(u=150, period=1, ta=1, grace=2, leak=0.7, dur=6, on_term=("late_ok", 0.5), sigs=[],
